@@ -211,6 +211,20 @@ class NamedTupV(TupV):
         return "%s(%s)" % (self.cls.name, ", ".join("%s=%r" % kv for kv in zip(self.names, self.items)))
 
 
+class NTClass:
+    """class made by collections.namedtuple(name, fields)"""
+
+    def __init__(self, name, names):
+        self.name, self.names, self.field_order, self.bases = name, list(names), list(names), ["NamedTuple"]
+
+
+class PropV:
+    """a property object reached through its class (Interval.start): .fget / .fset / .fdel"""
+
+    def __init__(self, owner, parts):
+        self.owner, self.parts = owner, parts
+
+
 class PartialV:
     """functools.partial(target, *args, **kwargs)"""
 
@@ -767,7 +781,7 @@ class PatternV:
         self.pattern = pattern
 
 
-BUILTINS = {"print", "input", "id", "setattr", "hasattr", "getattr", "callable", "round", "abs", "super", "map", "filter", "str", "int", "len", "isinstance", "bool", "list", "tuple", "enumerate", "zip", "all", "any", "float", "repr", "type", "dict", "set", "range", "sorted", "min", "max"}
+BUILTINS = {"next", "iter", "reversed", "print", "input", "id", "setattr", "hasattr", "getattr", "callable", "round", "abs", "super", "map", "filter", "str", "int", "len", "isinstance", "bool", "list", "tuple", "enumerate", "zip", "all", "any", "float", "repr", "type", "dict", "set", "range", "sorted", "min", "max"}
 
 
 def decorators(fn):
@@ -1067,6 +1081,9 @@ class Ev:
                 return DictV({k: EnumMember(c, k, self.ev(x, {"__mod__": c.mod}, c.mod)) for k, x in c.enum_members().items()})
             if c.is_enum and attr in c.enum_members():
                 return EnumMember(c, attr, self.ev(c.enum_members()[attr], {"__mod__": c.mod}, c.mod))
+            powner, pr = self.repo.find_prop(c, attr)
+            if pr:
+                return PropV(powner, pr)
             if attr == "__new__":
                 return Builtin("__new__")
             if attr == "__name__":
@@ -1092,6 +1109,13 @@ class Ev:
             raise AnalysisError("enum attribute .%s" % attr)
         if isinstance(v, ModRef):
             return ModRef(v.name + "." + attr)
+        if isinstance(v, PropV) and attr in ("fget", "fset", "fdel"):
+            fn_ = v.parts.get({"fget": "get", "fset": "set", "fdel": "del"}[attr])
+            if fn_ is None:
+                return NONE
+            return FuncV(fn_, cls=v.owner, mod=v.owner.mod)
+        if isinstance(v, NoneT):
+            raise _Raise(node, "'NoneType' object has no attribute %r" % attr, "AttributeError")
         return ("method", v, attr)
 
     def bind(self, fn, owner, self_val, via_class=None):
@@ -1351,6 +1375,11 @@ class Ev:
             return [self.unkey(k) for k in v.d]
         if isinstance(v, ElemV):
             return list(v.children.items)
+        if isinstance(v, Obj) and v.cls is not None:
+            owner, it = self.repo.find_method(v.cls, "__iter__")
+            if it is not None:
+                r = self.call_fn(FuncV(it, self_val=v, cls=owner, mod=owner.mod), [], {}, node)
+                return self.iterate(r, node)
         if isinstance(v, Frag):
             return [v]
         raise AnalysisError("iteration over %r at line %d is not modelled" % (v, node.lineno))
@@ -1644,6 +1673,14 @@ class Ev:
                     return Ctor(c.name, dict(kwargs, **{"arg%d" % i: a for i, a in enumerate(args)}))
                 owner, init = got
                 return Ctor(c.name, self.bind_args(init, args, kwargs, drop_first=True, mod=owner.mod))
+            if isinstance(target, NTClass):
+                if len(args) > len(target.names) or any(k not in target.names for k in kwargs):
+                    raise _Raise(e, "bad arguments for %s" % target.name, "TypeError")
+                vals = dict(zip(target.names, args))
+                vals.update(kwargs)
+                if set(vals) != set(target.names):
+                    raise _Raise(e, "missing arguments for %s" % target.name, "TypeError")
+                return NamedTupV(target, target.names, [vals[n_] for n_ in target.names])
             if isinstance(target, PartialV):
                 return self.apply(target.target, target.args + list(args), dict(target.kwargs, **kwargs), e, mod)
             if isinstance(target, PyFunc):
@@ -1733,6 +1770,17 @@ class Ev:
             if isinstance(args[0], NoneT):
                 return Builtin("NoneType")
             raise AnalysisError("type(%r) at line %d" % (args[0], e.lineno))
+        if name == "next" and args:
+            items = self.iterate(args[0], e)
+            if items:
+                return items[0]
+            if len(args) > 1:
+                return args[1]
+            raise _Raise(e, "StopIteration", "StopIteration")
+        if name == "iter" and len(args) == 1:
+            return ListV(self.iterate(args[0], e))
+        if name == "reversed" and len(args) == 1:
+            return ListV(list(reversed(self.iterate(args[0], e))))
         if name == "print":
             return NONE
         if name == "input":
@@ -1893,6 +1941,40 @@ class Ev:
                     return x.args["of"]
                 raise _Raise(e, "time data does not match format %r" % fmt.text(), "ValueError")
             raise AnalysisError("datetime.strptime(%r, %r) at line %d" % (x, fmt, e.lineno))
+        if name in ("collections.namedtuple", "namedtuple") and len(args) >= 2 and isinstance(args[0], Str) and args[0].is_lit():
+            fields = args[1]
+            if isinstance(fields, Str) and fields.is_lit():
+                names = fields.text().replace(",", " ").split()
+            elif isinstance(fields, ListV) and all(isinstance(x, Str) and x.is_lit() for x in fields.items):
+                names = [x.text() for x in fields.items]
+            else:
+                raise AnalysisError("namedtuple fields at line %d" % e.lineno)
+            return NTClass(args[0].text(), names)
+        if name in ("operator.methodcaller", "methodcaller") and args and isinstance(args[0], Str) and args[0].is_lit():
+            mname, margs, mkw = args[0].text(), list(args[1:]), dict(kwargs)
+
+            def mcall(a, k, mname=mname, margs=margs, mkw=mkw):
+                recv = a[0]
+                tgt = self.getattr(recv, mname, e, None)
+                if isinstance(tgt, tuple) and tgt and tgt[0] == "method":
+                    return self.method(recv, mname, margs, mkw, e)
+                return self.apply(tgt, margs, mkw, e, None)
+
+            return PyFunc(mcall, "methodcaller(%r)" % mname)
+        if name in ("operator.eq", "operator.ne", "operator.is_", "operator.is_not", "operator.not_", "operator.contains"):
+            op = name.split(".")[1]
+            if op == "not_":
+                return not self.truth(args[0], e)
+            table = {"eq": ast.Eq(), "ne": ast.NotEq(), "is_": ast.Is(), "is_not": ast.IsNot()}
+            if op == "contains":
+                return self.compare(ast.In(), args[1], args[0], e)
+            return self.compare(table[op], args[0], args[1], e)
+        if name in ("itertools.count", "count"):
+            start = args[0] if args else 0
+            step = args[1] if len(args) > 1 else 1
+            if isinstance(start, int) and isinstance(step, int):
+                return ListV([start + i * step for i in range(64)])  # a long enough prefix of the endless sequence
+            raise Undecided("itertools.count(%r)" % (start,))
         if name in ("functools.partial", "partial") and args:
             return PartialV(args[0], args[1:], kwargs)
         if name in ("operator.attrgetter", "attrgetter") and len(args) == 1 and isinstance(args[0], Str) and args[0].is_lit():
@@ -2317,7 +2399,7 @@ class Ev:
 
 def _walk_own(fn):
     """nodes of a function body without those of nested functions / lambdas"""
-    stack = list(fn.body)
+    stack = [st for st in fn.body if not isinstance(st, (ast.FunctionDef, ast.AsyncFunctionDef, ast.ClassDef))]
     while stack:
         n = stack.pop()
         yield n
